@@ -68,6 +68,22 @@ CLAIMED["C11"] = dict(
     technique="CBMC: full-domain contract on _vnaerr_verror + DFCC enforce-contract on setters + refusal postconditions",
 )
 
+CLAIMED["C04"] = dict(
+    level="proof",
+    text="All 72 two-port conversions and the 9 two-port input-impedance functions are parsed from the repository "
+         "files on every run and executed symbolically (sequential memory semantics); for each the generated "
+         "verification conditions - every port state satisfying the input representation's defining relation of "
+         "vnaconv(3) satisfies the output's with the computed matrix (complex, unequal z0, K_i = 1/sqrt|Re z_i|), "
+         "in-place call equals out-of-place call, converting back returns the original, Zin_k = v_k/i_k with the "
+         "other port terminated - are discharged by sympy as rational-function identities over exact complex "
+         "arithmetic.  This is a proof for all inputs off the singular set, in exact arithmetic.",
+    note="exact arithmetic instead of IEEE-754; n-port functions (stozn ... ytozin) and the n=2 agreement clause "
+         "are NOT covered; the contract language here is the generated VC, the verifier is sympy, not CBMC "
+         "(CBMC cannot decide double-complex arithmetic, DESIGN 1)",
+    design="DESIGN.md 2.2 E5, 3 C04, 8.6",
+    technique="generated verification conditions from the parsed real function bodies, discharged by sympy",
+)
+
 NA = {
     "C02": "iterative floating-point convergence (Levenberg-Marquardt / TRL) has no contract CBMC can discharge; see DESIGN.md 3 C02",
     "C06": "property is about bytes written by fprintf and read by an independent reader; no CBMC model of formatted I/O (a stub would be the oracle); DESIGN.md 3 C06",
@@ -92,7 +108,7 @@ def main():
             thorough_cmd="./check %s --tier thorough" % pid,
             evidence_file="/verif/evidence/%s.json" % pid,
             replay_cmd_template="cat {path}",
-            engine="cbmc-contracts",
+            engine=("slvc" if pid == "C04" else "cbmc-contracts"),
             level_claimed=dict(category=c["level"], text=c["text"], design_ref=c["design"]),
             level_note=c["note"],
             technique=c["technique"],
@@ -120,6 +136,10 @@ def main():
                                 "/repo/src; contracts as harness pre/postconditions over abstract views and "
                                 "representation invariants, DFCC function/loop contracts where stated; native "
                                 "ASan/UBSan replay of counterexamples"),
+            dict(name="slvc", path="/verif/slvc/slvc.py", serves_properties=["C04"],
+                 kind_free_text="straight-line VC generator: parses the real vnaconv_* two-port bodies each run, "
+                                "symbolic execution with sequential memory, obligations discharged by sympy; "
+                                "numeric witness replayed on the real functions via ctypes"),
         ],
         checks=checks,
         not_applicable=na,
